@@ -426,7 +426,9 @@ func (p *parser) parseDotMember(left ast.Expression) ast.Expression {
 	literal := p.literal
 	idx := p.idx
 
-	if !matchIdentifier.MatchString(literal) {
+	// An identifier token is an IdentifierName by construction (the lexer's definition is
+	// wider than matchIdentifier); the pattern only sorts keywords from other tokens.
+	if p.token != token.IDENTIFIER && !matchIdentifier.MatchString(literal) {
 		p.expect(token.IDENTIFIER)
 		p.nextStatement()
 		return &ast.BadExpression{From: period, To: p.idx}
